@@ -660,7 +660,10 @@ impl BinArchive {
 
     pub fn deallocate(&mut self, address: usize, amount_in_bytes: usize, ge: bool) -> Result<()> {
         validate_address(address, self.size(), false)?;
-        validate_address(address + amount_in_bytes, self.size(), true)?;
+        let end = address
+            .checked_add(amount_in_bytes)
+            .ok_or(ArchiveError::OutOfBoundsAddress(amount_in_bytes, self.size()))?;
+        validate_address(end, self.size(), true)?;
         validate_alignment(address, 4)?;
         validate_alignment(amount_in_bytes, 4)?;
         self.data.drain(address..(address + amount_in_bytes));
